@@ -66,6 +66,26 @@ CHECKS = {
         "Per-file exhaustiveness is real; the corpus itself is a sample (seeded). Checksum coincidences are decided by the independent decoder.",
         "DESIGN.md section 4 C05",
     ),
+    "C06": (
+        "model-based stateful testing: proptest operation histories against an array-with-cursor reference model",
+        "exploration",
+        "Histories of 1-40 operations {read, fill_buf, consume, seek Start/Current/End, seek(sample), tell} over the four seekable "
+        "front-ends on non-periodic files with every seek-table shape (none, every frame, every n frames, every n seconds, "
+        "placeholders, first point not frame 0), 1-8 channels, byte widths 1-4; after each step the returned data must equal the "
+        "decoded PCM at the model cursor, in-range seeks succeed with the right return value, out-of-range seeks fail.",
+        "After a failed seek the model deliberately stops predicting until the next successful absolute seek.",
+        "DESIGN.md section 4 C06",
+    ),
+    "C07": (
+        "model-based histories without seeks over segmented sources + exhaustive source split points for small files",
+        "exploration",
+        "Histories over {read(n), fill_buf, consume(k<=avail)} on the four buffered front-ends over sources that fragment reads "
+        "(1-byte, random chunks), continued to the end and polled 0-3 more times: exactly-once in-order delivery, idempotent end of "
+        "stream, byte/sample/channel views consistent; plus every 2-way split point and 1-byte reads of small files through all six "
+        "front-ends (exhaustive per file).",
+        "The reference is the harness's own serialisation of the PCM the file was built from.",
+        "DESIGN.md section 4 C07",
+    ),
 }
 
 NOT_YET = {}
